@@ -2,7 +2,10 @@
 MinHash.  Floats are printed / read as the decimal value of their IEEE-754 bit pattern; N = None.
 A `?` in place of an input that only the real code can produce (brentq's interval, size_is_accurate(),
 contained_by()) is accepted: the generator uses this program as helper to fill those in."""
+import atexit
+import os
 import struct
+import subprocess
 import sys
 import warnings
 
@@ -62,8 +65,87 @@ def sketches(len_a, len_b, common, scaled, k):
     return a, b
 
 
+class BinomProxy:
+    """records which scipy.stats.binom functions set_size_exact_prob calls, with which arguments"""
+
+    def __init__(self, real):
+        self.real = real
+        self.calls = []
+
+    def cdf(self, x, n, p):
+        v = self.real.cdf(x, n, p)
+        self.calls.append(("cdf", x, n, p, v))
+        return v
+
+    def pmf(self, x, n, p):
+        v = self.real.pmf(x, n, p)
+        self.calls.append(("pmf", x, n, p, v))
+        return v
+
+
+def size_is_accurate_traced(length, scaled, rel, conf):
+    if scaled == 0:
+        mh = MinHash(n=max(length, 1), ksize=21)
+    else:
+        mh = MinHash(n=0, ksize=21, scaled=scaled)
+    mh.add_many(range(1, length + 1))
+    proxy = BinomProxy(du.binom)
+    du.binom = proxy
+    try:
+        acc = mh.size_is_accurate(relative_error=rel, confidence=conf)
+    finally:
+        du.binom = proxy.real
+    calls = proxy.calls
+    if len({(c[2], c[3]) for c in calls}) != 1:
+        return "inconsistent-binomial-parameters " + repr(calls)
+    vals = [c[4] for c in calls] + [None] * (3 - len(calls))
+    prob = du.set_size_exact_prob(mh.unique_dataset_hashes, mh.scaled, relative_error=rel)
+    return (f"ok calls={','.join(c[0] + ':' + bits(c[1]) for c in calls)} vals={','.join(ob(v) for v in vals)} "
+            f"n={calls[0][2]} p={bits(calls[0][3])} prob={bits(prob)} acc={int(bool(acc))}")
+
+
+_native = None
+
+
+def native(line):
+    """forward an op to the Rust harness (`smharness ani`: executes src/core/src/ani_utils.rs)"""
+    global _native
+    if _native is None:
+        build = os.environ.get("VERIF_BUILD") or os.path.join(
+            os.path.dirname(os.path.dirname(os.path.dirname(os.path.abspath(__file__)))), ".build")
+        exe = os.path.join(build, "rh_target", "release", "smharness")
+        if not os.path.exists(exe):
+            return "no-native-harness"
+        _native = subprocess.Popen([exe, "ani"], stdin=subprocess.PIPE, stdout=subprocess.PIPE, text=True, bufsize=1)
+        atexit.register(lambda: (_native.stdin.close(), _native.wait(timeout=10)))
+    _native.stdin.write(line + "\n")
+    _native.stdin.flush()
+    return _native.stdout.readline().rstrip("\n")
+
+
 def do(w):
     op = w[0]
+    if op == "nat" and len(w) >= 3:
+        if w[1] in ("ci", "inc-ci") and len(w) == 9:
+            for t in w[7:9]:
+                if t not in ("?", "N"):
+                    int(t)
+            return native(" ".join(w[:7]))
+        if w[1] == "probit" and len(w) == 4:
+            if w[3] != "?":
+                int(w[3])
+            return native(" ".join(w[:3]))
+        if w[1] in ("ci", "inc-ci", "probit"):
+            return "bad-op"
+        return native(" ".join(w))
+    if op == "pyvar" and len(w) == 4:
+        return "ok v=" + bits(du.var_n_mutated(int(w[1]), int(w[2]), fl(w[3])))
+    if op == "sia" and len(w) == 8:
+        length, scaled, rel, conf = int(w[1]), int(w[2]), fl(w[3]), fl(w[4])
+        for t in w[5:8]:
+            if t not in ("?", "N"):
+                int(t)
+        return size_is_accurate_traced(length, scaled, rel, conf)
     if op == "c2d" and len(w) == 6:
         c, k, scaled, n, pthr = fl(w[1]), int(w[2]), int(w[3]), int(w[4]), ofl(w[5])
         if k == 0 or scaled == 0:
